@@ -33,6 +33,7 @@ struct ValidCase {
     lba: u32,
     clusters: u32,
     tail: u32,
+    bootable: bool,
 }
 
 fn geom_of(c: &ValidCase) -> Geom {
@@ -45,6 +46,7 @@ fn geom_of(c: &ValidCase) -> Geom {
     g.part_type = c.ptype;
     g.lba_start = c.lba;
     g.tail = c.tail;
+    g.status = if c.bootable { 0x80 } else { 0x00 };
     if c.fat32 {
         g.fsinfo_block = 1;
         if c.reserved < 2 {
@@ -55,7 +57,7 @@ fn geom_of(c: &ValidCase) -> Geom {
 }
 
 fn case_json(c: &ValidCase) -> Value {
-    json!({"kind":"valid","fat32":c.fat32,"spc":c.spc,"reserved":c.reserved,"nfats":c.nfats,"root_entries":c.root_entries,"total16":c.total16,"slot":c.slot,"ptype":c.ptype,"lba":c.lba,"clusters":c.clusters,"tail":c.tail})
+    json!({"kind":"valid","fat32":c.fat32,"spc":c.spc,"reserved":c.reserved,"nfats":c.nfats,"root_entries":c.root_entries,"total16":c.total16,"slot":c.slot,"ptype":c.ptype,"lba":c.lba,"clusters":c.clusters,"tail":c.tail,"bootable":c.bootable})
 }
 
 fn case_from_json(j: &Value) -> ValidCase {
@@ -72,6 +74,7 @@ fn case_from_json(j: &Value) -> ValidCase {
         lba: g("lba") as u32,
         clusters: g("clusters") as u32,
         tail: g("tail") as u32,
+        bootable: j["bootable"].as_bool().unwrap_or(false),
     }
 }
 
@@ -186,7 +189,7 @@ fn valid_grid(tier: &str) -> Vec<ValidCase> {
         for &clusters in counts {
             if quick && clusters == 2_000_000 {
                 // one representative only
-                out.push(ValidCase { fat32, spc: 8, reserved: 32, nfats: 2, root_entries: 0, total16: false, slot: 1, ptype: 0x0B, lba: 63, clusters, tail: 7 });
+                out.push(ValidCase { fat32, spc: 8, reserved: 32, nfats: 2, root_entries: 0, total16: false, slot: 1, ptype: 0x0B, lba: 63, clusters, tail: 7, bootable: true });
                 continue;
             }
             for &spc in spcs {
@@ -202,7 +205,7 @@ fn valid_grid(tier: &str) -> Vec<ValidCase> {
                                                     continue;
                                                 }
                                                 if !quick || (slot + lba as usize + ptype as usize + nfats as usize + tail as usize) % 2 == 0 {
-                                                    out.push(ValidCase { fat32, spc, reserved, nfats, root_entries, total16, slot, ptype, lba, clusters, tail });
+                                                    out.push(ValidCase { fat32, spc, reserved, nfats, root_entries, total16, slot, ptype, lba, clusters, tail, bootable: (slot + spc as usize + nfats as usize + (lba as usize & 3)) % 2 == 0 });
                                                 }
                                             }
                                         }
@@ -290,10 +293,10 @@ fn invalid_bases() -> Vec<InvalidBase> {
         }
     };
     vec![
-        mk(ValidCase { fat32: false, spc: 1, reserved: 1, nfats: 2, root_entries: 16, total16: true, slot: 0, ptype: 0x06, lba: 8, clusters: 4085, tail: 0 }, "fat16-small"),
-        mk(ValidCase { fat32: false, spc: 64, reserved: 2, nfats: 1, root_entries: 512, total16: false, slot: 2, ptype: 0x0E, lba: 2048, clusters: 65524, tail: 63 }, "fat16-large"),
-        mk(ValidCase { fat32: true, spc: 1, reserved: 32, nfats: 2, root_entries: 0, total16: false, slot: 1, ptype: 0x0C, lba: 63, clusters: 65525, tail: 0 }, "fat32-small"),
-        mk(ValidCase { fat32: true, spc: 128, reserved: 32, nfats: 1, root_entries: 0, total16: false, slot: 3, ptype: 0x0B, lba: 0x00F0_0001, clusters: 2_000_000, tail: 0 }, "fat32-large"),
+        mk(ValidCase { fat32: false, spc: 1, reserved: 1, nfats: 2, root_entries: 16, total16: true, slot: 0, ptype: 0x06, lba: 8, clusters: 4085, tail: 0, bootable: false }, "fat16-small"),
+        mk(ValidCase { fat32: false, spc: 64, reserved: 2, nfats: 1, root_entries: 512, total16: false, slot: 2, ptype: 0x0E, lba: 2048, clusters: 65524, tail: 63, bootable: true }, "fat16-large"),
+        mk(ValidCase { fat32: true, spc: 1, reserved: 32, nfats: 2, root_entries: 0, total16: false, slot: 1, ptype: 0x0C, lba: 63, clusters: 65525, tail: 0, bootable: false }, "fat32-small"),
+        mk(ValidCase { fat32: true, spc: 128, reserved: 32, nfats: 1, root_entries: 0, total16: false, slot: 3, ptype: 0x0B, lba: 0x00F0_0001, clusters: 2_000_000, tail: 0, bootable: true }, "fat32-large"),
     ]
 }
 
